@@ -39,12 +39,24 @@ func mustPass(o *an.Obl, f *an.Func, what string, through []an.Site, mode an.OkM
 		return
 	}
 	es, direct := f.UnionOk(through, mode)
+	// every path must also execute one of the calls: the success edges are
+	// recognised at the test of the call's result, which a path that skips
+	// a conditional call would share
+	stop := map[*flow.Vertex]bool{}
+	for _, s := range through {
+		stop[s.V] = true
+	}
+	skip := f.Graph().Reach(f.Graph().Entry, nil, stop)
 	for _, t := range targets {
 		if direct[t.V] {
 			continue
 		}
 		if bad := f.MustPass([]an.Site{t}, es); len(bad) > 0 {
 			o.FailAt(constructOf(f, t)+"<-"+what, t.Where(), "%s can be reached without a successful %s: %s", t.String(), what, bad[0])
+			continue
+		}
+		if skip[t.V] && !stop[t.V] {
+			o.FailAt(constructOf(f, t)+"<-skips-"+what, t.Where(), "%s can be reached on a path that never calls %s", t.String(), what)
 		}
 	}
 }
@@ -456,5 +468,56 @@ func everyIterationOr(o *an.Obl, f *an.Func, loopRe string, sites []an.Site, ski
 	}
 	if f.Graph().Reach(body, cut, stop)[head] {
 		o.FailAt(f.ID+"#iteration-skips-"+what, f.Where(head.Pos()), "an iteration of the loop over %s can skip %s other than by %s", f.Canon(head.Node.(*ast.RangeStmt).X), what, skip.Desc)
+	}
+}
+
+// mustPassUnless is mustPass with alternatives: a target may also be reached
+// through an edge establishing one of the unless facts. Every other path
+// must execute one of the calls and leave it through a success edge.
+func mustPassUnless(o *an.Obl, f *an.Func, what string, through []an.Site, mode an.OkMode, targets []an.Site, unless ...an.Fact) {
+	if len(through) == 0 {
+		o.FailAt(f.ID+"#no-"+what, f.Where(f.Body.Pos()), "no call of %s found in %s: the required step is gone", what, f.ID)
+		return
+	}
+	if len(targets) == 0 {
+		o.FailAt(f.ID+"#no-targets-"+what, f.Where(f.Body.Pos()), "no target sites for rule %q in %s", what, f.ID)
+		return
+	}
+	es, direct := f.UnionOk(through, mode)
+	alt := flow.EdgeSet{}
+	var descs []string
+	for _, u := range unless {
+		descs = append(descs, u.Desc)
+		for e := range f.EdgesOf(u) {
+			alt[e] = true
+		}
+	}
+	cut := flow.EdgeSet{}
+	for e := range es {
+		cut[e] = true
+	}
+	for e := range alt {
+		cut[e] = true
+	}
+	stop := map[*flow.Vertex]bool{}
+	for _, s := range through {
+		stop[s.V] = true
+		o.Site("through %s (unless %s)", s.String(), strings.Join(descs, " or "))
+	}
+	g := f.Graph()
+	r1 := g.Reach(g.Entry, cut, nil)
+	r2 := g.Reach(g.Entry, alt, stop)
+	for _, t := range targets {
+		o.Site("target %s", t.String())
+		if direct[t.V] {
+			continue
+		}
+		if r1[t.V] {
+			o.FailAt(constructOf(f, t)+"<-"+what, t.Where(), "%s can be reached without a successful %s and without [%s]: %s", t.String(), what, strings.Join(descs, " or "), f.RenderPath(g.PathTo(g.Entry, t.V, cut)))
+			continue
+		}
+		if r2[t.V] && !stop[t.V] {
+			o.FailAt(constructOf(f, t)+"<-skips-"+what, t.Where(), "%s can be reached on a path that never calls %s and does not establish [%s]", t.String(), what, strings.Join(descs, " or "))
+		}
 	}
 }
